@@ -159,8 +159,8 @@ class Transformation(object):
                 self.tf_sd.sd_ry = (self.tf_sd.sd_ry**2 + (self.tf_sd.sd_d_ry * timediff)**2) ** 0.5
                 self.tf_sd.sd_rz = (self.tf_sd.sd_rz**2 + (self.tf_sd.sd_d_rz * timediff)**2) ** 0.5
 
-            return Transformation(self.to_datum,
-                                  self.from_datum,
+            return Transformation(self.from_datum,
+                                  self.to_datum,
                                   other,
                                   round(self.tx + (self.d_tx * timediff), 8),
                                   round(self.ty + (self.d_ty * timediff), 8),
